@@ -17,7 +17,10 @@ import (
 // (both read in-package before the request; for a coordinator that has not loaded the
 // group yet, from the group it will restore). Such a commit / heartbeat / sync must be
 // answered with an error code and no committed offset may change. Requests that are not
-// accepted commits must never change a committed offset either.
+// accepted commits must never change a committed offset either. The empty member id
+// (generation -1: a client that is not a group member; commit also with the current
+// generation) is judged like any other id that is not in the group, but only while the
+// group has at least one member.
 //
 // Generations: every JoinGroup reply carries the generation; within one life of the
 // group (from its creation until it has no members and is deleted) the sequence of
@@ -39,7 +42,15 @@ func (coordC13) Check(w *coordWorld, st *coordStep) []xstate.Violation {
 		unknown := !st.Pre.Exists || !st.Pre.has(st.ReqMember)
 		staleGen := !st.Pre.Exists || st.ReqGen != st.Pre.Gen
 		accepted := r.ok()
-		if unknown || staleGen {
+		if st.ReqMember == "" && (!st.Pre.Exists || len(st.Pre.IDs) == 0) {
+			// a request without member id to a group that has no members: there is no current generation to be
+			// outside of (Kafka accepts such commits); only "no accepted commit, no offset change" is judged
+			if !accepted || k != "commit" {
+				if tp := coordOffsetsDiff(st.PreOff, st.PostOff); tp != "" {
+					out = append(out, coordViol("offset-changed-without-accepted-commit", "%s answered %s changed the committed offset of %s: %d -> %d", st.Ev, r.str(w.name), tp, st.PreOff[tp], st.PostOff[tp]))
+				}
+			}
+		} else if unknown || staleGen {
 			why := "stale-generation"
 			desc := "carries generation %d while the group is at %d"
 			if unknown {
@@ -89,7 +100,7 @@ func (coordC13) Check(w *coordWorld, st *coordStep) []xstate.Violation {
 
 func TestVerifC13(t *testing.T) {
 	coordRunCheck(t, "C13", func() coordOracle { return coordC13{} },
-		"BFS over all event histories (join/rejoin/sync/heartbeat/commit/leave/advance/failover events; commit, heartbeat and sync also from departed and never-issued member ids and with generation current-1) up to the depth bound, states merged by canonical key, every transition executed on the real GroupCoordinator; judged on every transition: a commit/heartbeat/sync whose member id is not in the group or whose generation is not the current one gets an error code and leaves every committed offset unchanged; a commit/heartbeat/sync from a member whose session lapsed more than a cleanup interval ago (no failover in the history) is not accepted; a JoinGroup without member id is never answered with an id issued earlier in the history (across failovers too); generations in JoinGroup replies never decrease within one life of the group. distinct = distinct (store, event, reply, state change) observations; non-trivial = error code or observable change",
+		"BFS over all event histories (join/rejoin/sync/heartbeat/commit/leave/advance/failover events; commit, heartbeat and sync also from departed and never-issued member ids, with generation current-1, and with the empty member id at generation -1 (commit also at the current generation)) up to the depth bound, states merged by canonical key, every transition executed on the real GroupCoordinator; judged on every transition: a commit/heartbeat/sync whose member id is not in the group or whose generation is not the current one gets an error code and leaves every committed offset unchanged; a commit/heartbeat/sync from a member whose session lapsed more than a cleanup interval ago (no failover in the history) is not accepted; a JoinGroup without member id is never answered with an id issued earlier in the history (across failovers too); generations in JoinGroup replies never decrease within one life of the group. distinct = distinct (store, event, reply, state change) observations; non-trivial = error code or observable change",
 		[]string{"sequential histories only: the schedule dimension of C13 (OffsetCommit validating under the lock and writing after it) is a separate check",
 			"a member that is in the group and presents the current generation number counts as current even if it has not rejoined yet (Kafka accepts such commits too)"})
 }
